@@ -963,6 +963,30 @@ package badger
 //@   assert[read-mark-at-max-version] before call Done#2 : arg1 == ret(MaxVersion#1) && arg0 == db.orc.readMark
 //@   assert[untouched-until-increment] before call incrementNextTs : arg0 == db.orc && db.orc.nextTxnTs == ret(MaxVersion#1)
 
+// StreamWriter: the largest version written is tracked for every entry, and Flush restarts the
+// timestamp oracle one above the larger of it and the current read timestamp, telling both
+// watermarks about that value.
+//@ func (*StreamWriter).Write.$1
+//@   props C11
+//@   light
+//@   assert[max-version-covers-entry] before call KeyWithTs : arg0 == kv.Key && arg1 == kv.Version && sw.maxVersion >= kv.Version
+
+//@ func (*StreamWriter).Flush
+//@   props C11
+//@   light
+//@   assert[max-covers-current] before call newOracle : sw.maxVersion >= ret(readTs#1)
+//@   assert[next-from-max-version] before call incrementNextTs : arg0 == sw.db.orc && sw.db.orc.nextTxnTs == sw.maxVersion
+//@   assert[commit-mark-at-max] before call Done#2 : arg0 == sw.db.orc.txnMark && arg1 == sw.maxVersion
+//@   assert[read-mark-at-max] before call Done#3 : arg0 == sw.db.orc.readMark && arg1 == sw.maxVersion
+//@   assert[unmanaged-restarts-oracle] before call Finish : !sw.db.opt.managedTxns ==> called(incrementNextTs#1)
+
+// Load: after every loaded entry the next timestamp is above its version.
+//@ func (*DB).Load
+//@   props C11
+//@   light
+//@   loop 2 invariant[above-loaded] rangeindex >= 0 && rangeindex < len(list.Kv) ==> db.orc.nextTxnTs > list.Kv[rangeindex].Version
+//@   assert[mark-below-next] before call Done : arg0 == db.orc.txnMark && arg1 == db.orc.nextTxnTs - 1
+
 // ---- call-order rules that recovery relies on (C08, C10): ordering obligations only ----
 // Neither property is decided (a crash point is a cut through the effects of several
 // goroutines; a power loss needs a model of which writes survive). What is checked is that the
